@@ -94,7 +94,7 @@ def check_function(ck, cx, fn, cls, rule, why):
 
 def rule_cursor_loops(ck, cx, rule, classes, why, floor, methods=('decode', 'encode', 'execute', 'calculateRtuFrameSize')):
     ck.rule(rule, 'every path through the body of a cursor-controlled while loop in the codecs that returns to the loop test advances the cursor by a provably positive amount')
-    n = 0
+    n = nl = 0
     seen = set()
     for k in classes:
         for m in methods:
@@ -102,6 +102,10 @@ def rule_cursor_loops(ck, cx, rule, classes, why, floor, methods=('decode', 'enc
             if fn is None or fn.qn in seen:
                 continue
             seen.add(fn.qn)
+            # the population the rule ranges over: the loops of the codec methods.  `for` loops over a range / a sequence end by
+            # construction; `while` loops are decided path by path.  (The floor is on the loops, not on the number of paths through
+            # them, which a refactoring changes freely.)
+            nl += sum(1 for x in ast.walk(fn.node) if isinstance(x, (ast.While, ast.For)))
             n += check_function(ck, cx, fn, fn.cls or k, rule, why)
-    ck.floor(rule, n, floor, 'back-edge paths of cursor loops')
-    return n
+    ck.obligations.append((rule, 'codec loops', '%d back-edge paths of cursor-controlled while loops examined' % n, True))
+    ck.floor(rule, nl, floor, 'loops in the codec methods (for loops end by construction, while loops are decided per back-edge path)')
